@@ -320,11 +320,43 @@ def parser_call_sites(ctx, fp):
     return sites
 
 
-def check_mode(ctx, out, fp):
+def check_consume(ctx, out, fp, rule):
+    """A diff entry taken out of the per-file change map (`remove`) is parsed: from the removal, the
+    enclosing loop cannot go on to its next file without passing the file parser (leaving through an
+    error is fine). Otherwise the file named in the diff is parsed neither here nor by the later
+    `remaining diff files` pass."""
+    n = 0
+    seen = set()
+    for v, pbi, pt in parser_call_sites(ctx, fp):
+        if v.cache_id in seen:
+            continue
+        seen.add(v.cache_id)
+        cfg = cfg_of(v)
+        parse_bbs = {bi for bi, t in v.calls() if (t.get("res") or "") == fp.id}
+        for bi, t in v.calls():
+            if bi not in cfg.reachable or not callee_matches(t, r"HashMap::<K, V, S, A>::(remove|remove_entry)$"):
+                continue
+            a0 = (t.get("arg_tys") or [""])[0]
+            if not re.search(r"HashMap<std::path::PathBuf, std::vec::Vec<[^>]*LineChange", a0):
+                continue
+            h = cfg.innermost_loop(bi)
+            if h is None:
+                n += 1
+                continue
+            r = cfg.reach(cfg.succ[bi][0], avoid=parse_bbs) if cfg.succ[bi] else set()
+            if h in r:
+                out.viol(rule, "%s|%s|removed-not-parsed" % (rule, v.id), ctx.where(v, t["span"]),
+                         "a file's entry is removed from the diff's change map and the loop can then continue with the next file without parsing it (e.g. because the file does not match the globs): a file named in the diff is silently dropped, together with its unbalanced tags and its blocks")
+            else:
+                n += 1
+    out.inst(rule, n, 0, note="removals from the diff change map inside the scan loop: each is followed by the file parser on every path that stays in the loop")
+
+
+def check_mode(ctx, out, fp, rule="C02.mode"):
     n = 0
     callers = parser_call_sites(ctx, fp)
     if len(callers) != 2:
-        out.viol("C02.mode", "C02.mode|sites", "-", "expected two call sites of the file parser (walk and diff-only), found %d" % len(callers))
+        out.viol(rule, rule + "|sites", "-", "expected two call sites of the file parser (walk and diff-only), found %d" % len(callers))
     for b, bi, t in callers:
         cfg = cfg_of(b)
         E = ctx.expr(b)
@@ -335,14 +367,14 @@ def check_mode(ctx, out, fp):
         if variant == want:
             n += 1
         else:
-            out.viol("C02.mode", "C02.mode|%s" % ("walk" if in_walk else "diff"), ctx.where(b, t["span"]),
+            out.viol(rule, rule + "|%s" % ("walk" if in_walk else "diff"), ctx.where(b, t["span"]),
                      "the %s site parses with filter %s; expected %s" % ("walk" if in_walk else "diff-only", variant, want))
         labs = ctx.prov.read_operand(b, t["args"][1])
         if in_walk:
             if P.has_call(labs, r"HashMap::<K, V, S, A>::remove$"):
                 n += 1
             else:
-                out.viol("C02.mode", "C02.mode|walk-changes", ctx.where(b, t["span"]), "a walked file is parsed without its own line changes from the diff")
+                out.viol(rule, rule + "|walk-changes", ctx.where(b, t["span"]), "a walked file is parsed without its own line changes from the diff")
             # the diff entry is consumed only for files that pass the allow / ignore decision
             for bj, tr in b.calls():
                 if callee_matches(tr, r"HashMap::<K, V, S, A>::remove$") and "diff_parser::LineChange" in (tr.get("arg_tys") or [""])[0]:
@@ -352,12 +384,12 @@ def check_mode(ctx, out, fp):
                     if a and i:
                         n += 1
                     else:
-                        out.viol("C02.mode", "C02.mode|remove-before-check", ctx.where(b, tr["span"]),
+                        out.viol(rule, rule + "|remove-before-check", ctx.where(b, tr["span"]),
                                  "a file's entry is removed from the diff map before the allow/ignore decision: a diffed file outside the positional globs is consumed by the walk and then never validated")
         else:
             if P.has_call(labs, r"hash_map::IntoIter<.*Iterator>::next$|IntoIterator>?::into_iter$") or P.has_path(labs, "1"):
                 n += 1
-    out.inst("C02.mode", n, 5, ["walk: All + remove(path) after allow/ignore; diff-only: ModifiedOnly"])
+    out.inst(rule, n, 5, ["walk: All + remove(path) after allow/ignore; diff-only: ModifiedOnly"])
 
 
 def check_nonint(ctx, out):
@@ -536,6 +568,10 @@ def run(ctx, out, tier):
     check_siblings(ctx, out)
     check_inclusive(ctx, out)
     check_scan(ctx, out)
+    # "editing only the attributes inside a start tag selects the block": the tag's own position range
+    # must be right wherever the tag sits in its comment (shared with C10/C03)
+    from rules.C10 import check_tagpos
+    check_tagpos(ctx, out, "C02.tagpos")
     check_search(ctx, out)
     check_units(ctx, out)
     check_coord(ctx, out)
@@ -546,6 +582,7 @@ def run(ctx, out, tier):
     shared.sh_traverse(ctx, out)
     from rules.C01 import check_skipfile
     check_skipfile(ctx, out, rule="C02.skipfile")
+    shared.sh_units(ctx, out)
     return meta()
 
 
